@@ -136,6 +136,9 @@ Definition n_payl := name4 112 97 121 108.
 Definition n_vtta := name4 118 116 116 97.
 Definition n_vtte := name4 118 116 116 101.
 Definition n_vsid := name4 118 115 105 100.
+Definition n_data := name4 100 97 116 97.
+Definition n_mime := name4 109 105 109 101.
+Definition n_wvtt := name4 119 118 116 116.
 
 (* ---------------------------------------------------------------- box header (box.go / boxsr.go) *)
 Record hdr := mkHdr { h_name : list N; h_size : N; h_len : N }.
@@ -259,7 +262,16 @@ Inductive leaf :=
 | LUuidUnk (uuid payload : list N)
 (* SgpdBox: Version Flags GroupingType DefaultLength DefaultGroupDescriptionIndex, per entry (description length, entry);
    canon (ghost): the reserved byte of every seig entry was 0 *)
-| LSgpd (version flags : N) (gtype : list N) (dlen dgdi : N) (items : list (N * sge)) (canon : bool).
+| LSgpd (version flags : N) (gtype : list N) (dlen dgdi : N) (items : list (N * sge)) (canon : bool)
+(* --- stage 5 --- *)
+(* DataBox (mp4/ffmpeg.go, the value atom of an iTunes metadata item): typeIndicator, locale (kept by a decoded box since
+   repo commit f36e540; before, they were skipped and written as 1 and 0: finding C01-F7), Data *)
+| LData (typ loc : N) (d : list N)
+(* MimeBox: Version Flags ContentType LacksZeroTermination *)
+| LMime (version flags : N) (ct : list N) (lacks : bool)
+(* WvttBox prefix: DataReferenceIndex; short (ghost): the reader ran dry inside the eight prefix bytes and the decoder
+   went on with zeros (DecodeWvttSR does not look at sr.AccError()) *)
+| LWvtt (dri : N) (short : bool).
 
 Definition leaf_name (l : leaf) : list N :=
   match l with
@@ -282,6 +294,7 @@ Definition leaf_name (l : leaf) : list N :=
   | LEsds _ _ _ _ _ _ _ _ _ _ _ _ => n_esds
   | LUuidTfxd _ _ _ _ => n_uuid | LUuidTfrf _ _ _ _ => n_uuid | LUuidSenc _ _ _ _ _ => n_uuid | LUuidUnk _ _ => n_uuid
   | LSgpd _ _ _ _ _ _ _ => n_sgpd
+  | LData _ _ _ => n_data | LMime _ _ _ _ => n_mime | LWvtt _ _ => n_wvtt
   end.
 
 Definition unity_matrix : list N :=
@@ -1199,6 +1212,38 @@ Definition dec_sgpd (h : hdr) : parser (leaf * rsvT) :=
    back: the same three texts as free/skip (dec_free; a Go string holds any bytes).
    vtte: DecodeVtteSR reads nothing, Size() = 8, Encode writes the header.
    vsid: SourceID = sr.ReadUint32(), Size() = 12 (the four bytes are kept as bytes). *)
+(* ---------------------------------------------------------------- data (mp4/ffmpeg.go) *)
+(* typeIndicator := sr.ReadUint32(); locale := sr.ReadUint32(); Data = sr.ReadBytes(payloadLen-8) (a negative count is an
+   error); sr.AccError() *)
+Definition dec_data (h : hdr) : parser (leaf * rsvT) :=
+  pdo t <- rd 4 ;; pdo loc <- rd 4 ;;
+  if payload_len h <? 8 then pfail else
+  pdo d <- rdB (payload_len h - 8) ;; pret (LData t loc d, []).
+
+(* ---------------------------------------------------------------- mime *)
+(* the payload check comes after the version and flags have been read; rest[len(rest)-1] decides the termination *)
+Definition dec_mime (h : hdr) : parser (leaf * rsvT) :=
+  pdo vf <- rd 4 ;;
+  if payload_len h <? 5 then pfail else
+  pdo rest <- rdB (payload_len h - 4) ;;
+  if last rest 0 =? 0 then pret (LMime (vf_version vf) (vf_flags vf) (removelast rest) false, [])
+  else pret (LMime (vf_version vf) (vf_flags vf) rest true, []).
+
+(* ---------------------------------------------------------------- wvtt prefix (WebVTT sample entry) *)
+(* sr.SkipBytes(6); DataReferenceIndex = sr.ReadUint16(); then `for pos < endPos { DecodeBoxSR; pos += box.Size() }` from
+   pos = startPos+16 (PEntry 16).  DecodeWvttSR never asks sr.AccError(): when the slice ends inside the eight bytes the
+   reader is left in its error state, the index is 0, and the box is accepted if no child is due (Size <= 16); a child
+   decode on the errored reader fails (size 0). *)
+Definition dec_wvtt (h : hdr) : parser (leaf * rsvT) := fun bs =>
+  match rdB 6 bs with
+  | Ok (r6, r1) =>
+      match rd 2 r1 with
+      | Ok (dri, r2) => Ok ((LWvtt dri false, [r6]), r2)
+      | _ => if 16 <? h_size h then Err else Ok ((LWvtt 0 true, [r6]), r1)
+      end
+  | _ => if 16 <? h_size h then Err else Ok ((LWvtt 0 true, [zeros 6]), bs)
+  end.
+
 Definition dec_empty (h : hdr) : parser (leaf * rsvT) := pret (LFree (h_name h) [], []).
 Definition dec_b4 (h : hdr) : parser (leaf * rsvT) := pdo d <- rdB 4 ;; pret (LFree (h_name h) d, []).
 
@@ -1362,6 +1407,10 @@ Definition body_leaf (l : leaf) (r : rsvT) : res (list N) :=
       (* the reserved byte of a seig entry is written as 0: chunk 0 holds one byte per entry *)
       Ok (be_enc 4 (vf_join v f) ++ gt ++ wr_if (1 <=? v) 4 dlen ++ wr_if (2 <=? v) 4 dgdi ++ be_enc 4 (lenN items) ++
           flat_map (wr_sgpd_item dlen) (combine items (chunk 0 r)))
+  (* sw.WriteUint32(b.TypeIndicator()); sw.WriteUint32(b.Locale()); sw.WriteBytes(b.Data) -- of a decoded box *)
+  | LData t loc d => Ok (be_enc 4 t ++ be_enc 4 loc ++ d)
+  | LMime v f ct lacks => Ok (be_enc 4 (vf_join v f) ++ ct ++ (if lacks then [] else [0]))
+  | LWvtt dri _ => Ok (chunk 0 r ++ be_enc 2 dri)
   end.
 
 (* WriteZeroBytes(int(31 - compressorNameLength)) with compressorNameLength := byte(len(name)), in byte arithmetic *)
@@ -1387,6 +1436,7 @@ Definition dflt_rsv (l : leaf) : rsvT :=
   | LHvcC _ _ _ _ _ _ _ _ _ _ _ _ _ _ _ _ => [[15]; [63]; [63]; [31]; [31]; []]
   | LEsds _ _ nb _ fl _ url _ dcd cs u _ => esds_dflt nb fl url dcd cs u
   | LSgpd _ _ _ _ _ items _ => [map (fun _ => 0) items]
+  | LWvtt _ _ => [zeros 6]
   | _ => []
   end.
 
@@ -1403,6 +1453,7 @@ Definition rsv_dc (l : leaf) : list bool :=
   | LHvcC _ _ _ _ _ _ _ _ _ _ _ _ _ _ _ _ => [true; true; true; true; true; false]
   (* the size fields of the descriptors are not reserved bits *)
   | LEsds _ _ nb _ fl _ url _ dcd cs u _ => map (fun _ => false) (esds_dflt nb fl url dcd cs u)
+  | LWvtt _ _ => [true]
   | _ => []
   end.
 
@@ -1480,6 +1531,9 @@ Definition size_leaf (l : leaf) : N :=
   | LSgpd v _ _ dlen _ items _ =>
       20 + (if 1 <=? v then 4 else 0) + (if 2 <=? v then 4 else 0) +
       (if 1 <=? v then (if negb (dlen =? 0) then lenN items * dlen else sumN (map (fun it => 4 + fst it) items)) else 0)
+  | LData _ _ d => 8 + 8 + lenN d
+  | LMime _ _ ct lacks => 8 + 4 + lenN ct + 1 - (if lacks then 1 else 0)
+  | LWvtt _ _ => 16
   end.
 
 (* header written by the leaf encoder *)
@@ -1513,7 +1567,8 @@ Definition leaf_table : list (list N * (hdr -> parser (leaf * rsvT))) :=
     (n_senc, dec_senc); (n_emsg, dec_emsg); (n_elng, dec_elng); (n_kind, dec_kind);
     (n_hvcC, dec_hvcC); (n_subs, dec_subs); (n_esds, dec_esds); (n_uuid, dec_uuid); (n_sgpd, dec_sgpd);
     (n_vttC, dec_free); (n_vlab, dec_free); (n_ctim, dec_free); (n_iden, dec_free); (n_sttg, dec_free);
-    (n_payl, dec_free); (n_vtta, dec_free); (n_vtte, dec_empty); (n_vsid, dec_b4) ].
+    (n_payl, dec_free); (n_vtta, dec_free); (n_vtte, dec_empty); (n_vsid, dec_b4);
+    (n_data, dec_data); (n_mime, dec_mime) ].
 
 (* boxes with a field prefix followed by child boxes.  PStrict off: DecodeContainerChildrenSR(hdr, startPos+off,
    startPos+hdr.Size) (sizes cross-checked against the bytes consumed); PEntry start: the sample entry loop
@@ -1528,7 +1583,8 @@ Definition pre_table : list (list N * ((hdr -> parser (leaf * rsvT)) * loopkind)
     (n_ec3, (dec_audio, PEntry 36));
     (* MetaBox in its ISO form (version and flags, then the children: DecodeContainerChildrenSR(hdr, startPos+12, ..));
        the QuickTime form is a pure container, see meta_qt *)
-    (n_meta, (dec_fullonly, PStrict 12)) ].
+    (n_meta, (dec_fullonly, PStrict 12));
+    (n_wvtt, (dec_wvtt, PEntry 16)) ].
 (* len(children) != int(sampleCount) / entryCount != dref.EntryCount *)
 Definition pre_count_ok (l : leaf) (n : N) : bool :=
   match l with LStsd _ _ c => n =? c | LDref _ _ c => n =? c | _ => true end.
@@ -1794,6 +1850,8 @@ Definition leaf_guard (l : leaf) : bool :=
   | LEsds _ _ _ _ _ _ _ _ _ _ _ canon => canon
   | LUuidSenc _ cnt raw rs np => senc_keeps np cnt rs || (lenN raw =? 0)
   | LSgpd _ _ _ _ _ _ canon => canon
+  (* a wvtt whose prefix was not there *)
+  | LWvtt _ short => negb short
   | _ => true
   end.
 
